@@ -569,6 +569,56 @@ fn p10(p: &mut ProbeReport, r: &mut Rng, budget: usize) {
         p.eval("corpus|D3", true);
         match res { Ok(h) if h.is_empty() => {}, other => p.fail(format!("after clear(), search 'b' should find nothing: {:?}", other), Case { name: "c10-d3".into(), lang: "none".into(), stream: "probe", ops }) }
     }
+    // small-scope exhaustive: every operation sequence up to a fixed length over a small alphabet,
+    // each search compared with a freshly built store
+    {
+        let alphabet: Vec<Op> = vec![
+            Op::Add(0, 1, "a d".into()),      // rating patched below: higher than everything so far
+            Op::Add(0, 0, "ad".into()),       // rating patched below: lower than everything so far
+            Op::Clear, Op::Limit(1), Op::Limit(3), Op::Limit(10), Op::Search("".into()), Op::Search("a".into()),
+        ];
+        let maxlen = if budget > 20000 { 6 } else { 5 };
+        let mut idx = vec![0usize; 0];
+        let mut total = 0usize;
+        loop {
+            // next sequence in length-lexicographic order
+            let mut k = idx.len();
+            loop { if k == 0 { idx = vec![0; idx.len() + 1]; break; } k -= 1; if idx[k] + 1 < alphabet.len() { idx[k] += 1; for j in k + 1..idx.len() { idx[j] = 0; } break; } }
+            if idx.len() > maxlen { break; }
+            if !idx.iter().any(|a| *a >= 6) { continue; }
+            total += 1;
+            let mut st = new_store("none", core::DEFAULT_LIMIT);
+            let mut recs: Vec<(usize, String, usize)> = vec![(1, "ab".into(), 500), (2, "a c".into(), 400)];
+            for (id, t, rt) in &recs { add_to(&mut st, *id, t, *rt); }
+            let mut ops: Vec<Op> = vec![Op::New, Op::Add(1, 500, "ab".into()), Op::Add(2, 400, "a c".into())];
+            let mut limit = core::DEFAULT_LIMIT;
+            let (mut hi, mut lo, mut next) = (600usize, 300usize, 3usize);
+            for a in &idx {
+                let op = match &alphabet[*a] {
+                    Op::Add(_, 1, t) => { hi += 10; next += 1; Op::Add(next, hi, t.clone()) }
+                    Op::Add(_, _, t) => { lo -= 10; next += 1; Op::Add(next, lo, t.clone()) }
+                    o => o.clone(),
+                };
+                ops.push(op.clone());
+                match &op {
+                    Op::Add(id, rating, t) => { add_to(&mut st, *id, t, *rating); recs.push((*id, t.clone(), *rating)); }
+                    Op::Clear => { st.clear(); recs.clear(); }
+                    Op::Limit(n) => { st.limit = *n; limit = *n; }
+                    Op::Search(q) => {
+                        let got = search_results(&st, q);
+                        let want = search_results(&Scn { lang: "none".into(), recs: recs.clone(), limit }.build(), q);
+                        p.eval(&format!("x|{:?}|{}", idx, q), !recs.is_empty());
+                        if got != want { p.fail(format!("after the operation sequence search {:?} returns {:?} but a freshly built store returns {:?}", q, got, want), Case { name: "c10-exhaustive".into(), lang: "none".into(), stream: "probe", ops: ops.clone() }); }
+                    }
+                    _ => {}
+                }
+            }
+            if p.failures.len() >= 4 { break; }
+        }
+        p.notes.insert("exhaustive_sequences".into(), total);
+        p.notes.insert("exhaustive_max_len".into(), maxlen);
+    }
+    let budget = budget + p.evaluations;
     let mut i = 0;
     while p.evaluations < budget {
         let code = LANGS[i % LANGS.len()]; i += 1;
